@@ -54,6 +54,18 @@ CLAIMED = {
             "Machine-checked proof of face count/monotonicity/span, midpoint centres, positive volumes summing to the length, exact weighted average of constants, and the refined-mesh zone structure and size ratio under the whole-number-of-cells hypothesis. 2D index tables: sweep (exhaustive comparison against the flattening maps) until the 2D model lands.",
             "Trusted: Lean kernel + standard axioms; np.linspace modelled as i*(L/n); int() floor modelled by an explicit nc1 with hypothesis; sampling.",
             "DESIGN.md 4/C20"),
+    'C06': ("Lean 4 theorems on the theta/xi step with an abstract linear solver (affine problems over any field, BDF2 recurrence, conservation, fixed points, complex amplification factors) + exact-Q correspondence L-istep/L-driver",
+            "Machine-checked proof that the finite-difference Jacobian of an affine operator is its matrix for any non-zero perturbation, hence one step of implicit / cranknicolson solves (I - dt M)Q' = Q + dt b resp. the Crank-Nicolson system, gear starts with exactly one Crank-Nicolson step (time advances by dt once) and then satisfies the BDF2 recurrence; |1/(1-z)|, |(1+z/2)/(1-z/2)| <= 1 for Re z <= 0 and the order identities. Partial: 'Jacobian equals the derivative' for nonlinear operators is explored numerically only.",
+            "Trusted: Lean kernel + standard axioms; np.linalg.solve assumed to return a solution of the system formed (hypothesis hsolve); transcription validated by L-istep (exact Gaussian elimination in Q vs implementation, scalar and local dt, gear with memory) and L-driver.",
+            "DESIGN.md 4/C06"),
+    'C07': ("Lean 4 theorems on an explicit driver state machine (solve/restart/_solve) + integrator time-advance theorems + exact-Q correspondence of call histories (L-driver)",
+            "Machine-checked proof on the driver model: side steps leave the trajectory state untouched; every snapshot is stamped with a requested save time, tagged with the current iteration and reached by one forward step 0 <= ts - t <= dt from the current state (a save time equal to the current time copies the state); one iteration = one full step and counter+1; the loop stops at the first state satisfying a stop criterion; each integrator step advances time by dt exactly once (C05/C06 step theorems).",
+            "Trusted: Lean kernel + standard axioms; transcription of _solve as a state machine with fuel (validated by L-driver on histories over all 12 integrators: snapshot (time,it,data), nit/totnit, final state, monitors, caller's field); python aliasing/copy semantics are modelled by value semantics and checked by the layer.",
+            "DESIGN.md 4/C07"),
+    'C08': ("Lean 4 theorems (trajectory = iterate of adv, independent of save times and monitors; solve N + restart M = solve N+M with hidden solver state explicit) + exact-Q correspondence of call histories",
+            "Machine-checked proof on the driver model that the state after the loop is `adv` iterated nit times, that two runs differing only in save times and monitors have the same trajectory, and that N iterations followed by a restart of M reach the state, time and cumulative count of N+M (hidden multistep state kept by restart, reset by solve). Partial: full characterisation of monitor logs and bitwise repeatability are checked on the implementation (L-driver, sweep).",
+            "Trusted: Lean kernel + standard axioms; hypothesis hkeep (snapshot side steps restore the solver state) is what the repaired code implements and L-driver validates (gear with snapshots); sampling.",
+            "DESIGN.md 4/C08"),
 }
 
 NOT_YET = {}
